@@ -77,16 +77,17 @@ def _h_copy(node, e, env):
     raise Unsupported(f"copy of {obj!r}")
 
 
-def _arg_for(ann: str):
+def _arg_for(ann: str, falsy: bool = False):
+    """A value of the annotated type; with `falsy` the boundary value that tests false (seed 0 is a seed)."""
     a = ann.replace(" ", "")
     if a.startswith("int"):
-        return 7
+        return 0 if falsy else 7
     if a.startswith("bool"):
-        return True
+        return not falsy
     if a.startswith("str"):
         return "text"
     if a.startswith("float"):
-        return 0.5
+        return 0.0 if falsy else 0.5
     return _new("given_value", a.split("|")[0] or "object")
 
 
@@ -134,14 +135,15 @@ def run(ctx: Ctx, inst_cls, bld_cls) -> bool:
             bad = []
             try:
                 results = []
-                for rep in range(3):
-                    me, opts, sim = world(cls, seed=11 if rep == 2 else None)  # the third run starts from a configuration that already has a seed
+                for rep in range(4):
+                    # the third run starts from a configuration that already has a seed; the fourth passes the falsy boundary value (0, False)
+                    me, opts, sim = world(cls, seed=11 if rep == 2 else None)
                     for d in declared:
                         me.attrs.setdefault(d, None)
                     env = {ps[0].arg: me, "replace": _h_replace, "copy.copy": _h_copy, "dataclasses.replace": _h_replace}
                     given = []
                     for p in ps[1:]:
-                        v = _arg_for(ast.unparse(p.annotation) if p.annotation is not None else "")
+                        v = _arg_for(ast.unparse(p.annotation) if p.annotation is not None else "", falsy=rep == 3)
                         env[p.arg] = v
                         given.append(v)
                     before = _snapshot(me)
